@@ -78,6 +78,7 @@ type Thread struct {
 	Local    func() string // optional harness-provided digest of thread-local state
 	Class    string        // threads of one class with identical scripts: unstarted ones are interchangeable
 	started  bool
+	Parent   *Thread
 	lastDone *pendingOp // communication completed passively, not yet resumed
 }
 
@@ -124,6 +125,10 @@ type Config struct {
 	WantKeys   bool
 	HarnessKey func() string
 	DaemonSite func(site string) bool // which spawn sites create daemon threads (default: all but harness sites)
+	// Priority: threads whose transitions are taken eagerly (first enabled one, no branching).
+	// Only sound for threads whose remaining behaviour is independent of all other threads;
+	// used to model environment processes that finish "immediately" (see DESIGN.md).
+	Priority func(t *Thread) bool
 	Trace      bool
 }
 
@@ -193,7 +198,7 @@ func Execute(cfg Config, root func(), choose func(p *Point) int) (*Sched, Outcom
 }
 
 func (s *Sched) newThread(parent *Thread, site string, f func()) *Thread {
-	t := &Thread{s: s, id: len(s.threads), Site: site, wake: make(chan struct{})}
+	t := &Thread{s: s, id: len(s.threads), Site: site, wake: make(chan struct{}), Parent: parent}
 	if parent == nil {
 		t.Name = site
 	} else {
@@ -528,6 +533,14 @@ func (s *Sched) loop() Outcome {
 		}
 		if s.Steps >= s.cfg.MaxSteps {
 			return Horizon
+		}
+		if s.cfg.Priority != nil {
+			for _, tr := range en {
+				if tr.t != nil && s.cfg.Priority(tr.t) {
+					en = []transition{tr}
+					break
+				}
+			}
 		}
 		p := Point{N: len(en)}
 		p.RunningEnabled = s.running != nil && !s.running.done && en[0].t == s.running
